@@ -940,7 +940,7 @@ def op_args(rng, o, tool, wd, tag):
         return ['-P' if tool == 'b' else '-p', '%s%s,%s' % (pfx, rng_s, val)]
     if k in ('move', 'moveover'):
         dp = ''
-        if o['page'] >= 0 and (o['dpage'] != o['page'] or rng.random() < 0.5):
+        if o['page'] >= 0 and (o['dpage'] != o['page'] or o.get('explicit') or rng.random() < 0.5):
             dp = '%d:' % o['dpage']
         return ['-m', '%s%s,%s,%s%s' % (pfx, num(rng, o['a']), num(rng, o['n']), dp, num(rng, o['dst']))]
     if k == 'patch':
@@ -1003,12 +1003,17 @@ def all_named_ops(rng, machine, fmt, ver):
 
 
 def trace_worker(job):
-    wd, n, sd, nsteps = job
+    wd, n, sd, nsteps = job[:4]
+    sweep = list(job[4]) if len(job) > 4 else None      # (source bank, destination bank) pairs: one explicit paged move each
     rng = random.Random(sd)
     snapshot = _sk()
     from skoolkit import bin2sna, snapmod
     machine = rng.choice(('48K', '128K', '128K', '+2'))
     create = rng.choice(('b2s', 'b2s', 'ws', 'v1', 'v2', 'ind3', 'indszx'))
+    if sweep:
+        machine = rng.choice(('128K', '+2'))
+        create = rng.choice(('ws', 'ind3', 'indszx'))
+        nsteps = len(sweep)
     if create == 'v1':
         machine = '48K'
     if create == 'b2s' and machine == '+2':
@@ -1071,6 +1076,15 @@ def trace_worker(job):
         cnt = 1 if r < 0.75 else rng.randrange(2, 5)
         cls = rng.choice(('reg', 'state', 'mem', 'mem', 'mem'))
         ops = []
+        if sweep:
+            # every (source bank, destination bank) pair with both prefixes written out
+            sp, dp = sweep[k - 1]
+            cnt, cls = 0, 'mem'
+            mn = rng.choice((1, 2, 7, 16))
+            o = op('move', page=sp, a=rng.randrange(0, BANK - mn + 1) + rng.choice((0, 0xC000)), n=mn, dpage=dp,
+                   dst=rng.randrange(0, BANK - mn + 1) + rng.choice((0, 0xC000)))
+            o['explicit'] = 1
+            ops.append(o)
         for _ in range(cnt):
             if cls == 'reg':
                 ops.append(gen_reg_op(rng, ver == 1))
